@@ -56,6 +56,10 @@ namespace options
                const std::string& about = std::string(""),
                const std::string& group = std::string("arguments"));
 
+        // groups refer back to their parser, so moving a parser has to rebind them
+        parser(parser&& other);
+        parser& operator=(parser&& other);
+
         auto parse(int argc, const char* const argv[]) -> arguments;
         auto parse(const std::vector<options::user_input>& args) -> arguments;
 
@@ -113,6 +117,8 @@ namespace options
         }
 
         bool has_option_with_name(const std::string& name) const;
+
+        void rebind_groups();
 
         friend class options::group;
 
